@@ -69,6 +69,10 @@ type Broker struct {
 	Auto map[string]bool
 	// Policy runs first for every received message (in the incarnation's reader goroutine); return true = handled
 	Policy func(inc *Inc, m message.Message) bool
+	// PreLog runs before a received message is logged; returning true means the message was lost in flight (not logged, not handled)
+	PreLog func(inc *Inc, m message.Message) bool
+	// DialGate, when non-nil, makes every dial wait until the channel is closed (an outage the harness controls)
+	DialGate chan struct{}
 	// DialScript: outcomes of the next dials ("ok", "fail", "cut" = accept and sever before the connect response); then ok
 	DialScript []string
 	DialDelay  time.Duration
@@ -127,7 +131,11 @@ func (b *Broker) dial(c transport.DialConfig) (transport.Transport, error) {
 		b.DialScript = b.DialScript[1:]
 	}
 	delay := b.DialDelay
+	gate := b.DialGate
 	b.mu.Unlock()
+	if gate != nil {
+		<-gate
+	}
 	if delay > 0 {
 		time.Sleep(delay)
 	}
@@ -204,6 +212,12 @@ func (i *Inc) reader(cutBeforeConnectResponse bool) {
 			return
 		}
 		b := i.b
+		b.mu.Lock()
+		pre := b.PreLog
+		b.mu.Unlock()
+		if pre != nil && pre(i, m) {
+			continue
+		}
 		b.mu.Lock()
 		b.Log = append(b.Log, Rec{Inc: i.N, Msg: m, At: time.Now()})
 		if cr, ok := m.(*message.ConnectRequest); ok {
